@@ -153,6 +153,9 @@ func init() {
 		bin := filepath.Join(c.Work, "qvrace")
 		build := exec.Command("go", "build", "-race", "-tags", "verif", "-o", bin, "./cmd/qvrace")
 		build.Dir = filepath.Join(run.VerifDir, "harness")
+		if d := os.Getenv("QV_HARNESS_DIR"); d != "" {
+			build.Dir = d
+		}
 		build.Env = append(os.Environ(), "CGO_ENABLED=1")
 		if out, err := build.CombinedOutput(); err != nil {
 			return run.Brokenf("race-detector build failed: %v\n%s", err, out)
